@@ -206,10 +206,8 @@ def random_oracle(case):
 
 # ------------------------------------------------------------ large grids
 def enum_large(tier):
-    shapes = [(300, 400), (3, 20000), (20000, 3), (1, 46400)] \
-        if tier == "quick" else \
-        [(300, 400), (3, 20000), (20000, 3), (1, 46400), (1200, 1500),
-         (2, 70000)]
+    quick = [(300, 400), (3, 20000), (20000, 3), (1, 46400), (1, 255), (1, 256), (1, 257), (16, 16), (17, 15), (32, 33), (64, 64), (128, 2), (2, 129)]
+    shapes = quick if tier == "quick" else quick + [(1200, 1500), (2, 70000)]
     for nr, nc in shapes:
         for fk in ("unit", "pattern"):
             yield {"nrows": nr, "ncols": nc, "field": fk}
